@@ -1,10 +1,15 @@
 """C16 - scalars are quantities, arrays are arrays, views stay attached to their data.
 
 Discrete axes (enumerated as cases): operand shape (rank 0..3, extents 0..2 quick / 0..3 thorough), operand class
-(unyt_array incl. 0-d unyt_array, unyt_quantity incl. size-1 quantities of rank >= 1), operation / indexing form / accessor.
-Continuous axes (z3 reals): every payload element, every value written through a view or into a copy, every unit scale.
+(unyt_array incl. 0-d unyt_array, unyt_quantity incl. size-1 quantities of rank >= 1), operation / indexing form / accessor,
+and the UNIT FAMILY of the two operands of a binary operation (unrelated units; the same unit; commensurable units in different
+scales; unit pairs whose product / quotient cancels to a numeric coefficient, to a coefficient and a unit, or to a scaled pure
+number - the pairs for which the ufunc wrap-up leaves through its second, rescaling exit).
+Continuous axes (z3 reals): every payload element, every value written through a view or into a copy, every unit scale
+(cancelling unit factors are table units: sympy cannot hold a solver term).
 Class and shape facts are concrete per explored path; the solver's share is the value-level statements
-(write-through for all w, independence of copies, SI-equality of coerced / converted / unit-carrying writes).
+(write-through for all w, independence of copies, SI-equality of coerced / converted / unit-carrying writes, SI value of
+products / quotients / contractions / sums whose units cancel).
 """
 import copy as _copy
 import itertools
@@ -12,14 +17,16 @@ import itertools
 import numpy as np
 
 from .common import as_ufunc_global
-from .common import And, Case, all_exact, band, call, check_names, close, distinct_scales, elements, exact_eq, payload
+from .common import And, Case, all_exact, band, call, check_names, close, distinct_scales, elements, exact_eq, payload, vabs
 
 LEVEL = "other"
 MANIFEST = dict(
     category="other",
     text=("Bounded symbolic execution of the real result-class, indexing, view/copy and coercion code (symx). Shapes (rank 0..3, "
           "extents 0..2 quick / 0..3 thorough, incl. (), (1,), (1,1), (0,), (2,0)), operand classes (unyt_array incl. 0-d, "
-          "unyt_quantity incl. size-1 of rank>=1), operations, indexing forms and accessors are ENUMERATED, one case each; class and "
+          "unyt_quantity incl. size-1 of rank>=1), operations, indexing forms, accessors and the unit family of a binary operation's "
+          "operands (unrelated / same / commensurable in another scale / cancelling to a coefficient, to a coefficient and a unit, to a "
+          "scaled pure number, exactly) are ENUMERATED, one case each; class and "
           "shape facts (shape () => unyt_quantity, more than one element => unyt_array and not unyt_quantity, indexed/iterated "
           "elements carry the parent's unit and name) are therefore concrete per explored path, checked on every path of the real "
           "code running on symbolic payloads. The solver's share is the value-level statements, decided by z3 for ALL real payload "
@@ -27,7 +34,10 @@ MANIFEST = dict(
           ".ndview / ndarray_view() / constructor-on-ndarray makes exactly the corresponding parent element equal to w (a "
           "unit-carrying write: equal in SI) and leaves the others unchanged; writes into .v / .value / to_ndarray() / to_value() / "
           "copy() / to / in_units / in_base / ndarray*unit results leave every parent term unchanged (and vice versa); a list of "
-          "quantities in mixed commensurable units is coerced to the first element's unit with equal SI magnitudes. Any model is "
+          "quantities in mixed commensurable units is coerced to the first element's unit with equal SI magnitudes; the result of "
+          "multiply / divide / outer / matmul / vecdot / add / subtract / x*unit / x/unit on operands whose units cancel (km * 1/m, "
+          "m**2 / cm, erg / (N*m) ...) denotes in SI what bare NumPy computes from the payloads times the scales of the harness' own "
+          "unit table (so the coefficient is applied exactly once, to every output, whatever class the result has). Any model is "
           "replayed on plain unyt with float64 data."),
     design="DESIGN.md section 4 C16",
     technique="symbolic execution of the real Python code over z3 real terms held in NumPy object arrays (which share memory exactly "
@@ -35,7 +45,9 @@ MANIFEST = dict(
               "counterexample replay")
 EXPLANATION = (
     "The real unyt_array.__array_ufunc__ wrap-up (unary, binary, reduce, accumulate, outer, the modf/divmod tuple branch, "
-    "_get_binary_op_return_class), __getitem__/__setitem__/iteration, unyt_quantity.__new__ and reshape, unyt_array.__new__ (view of an "
+    "_get_binary_op_return_class, and both exits of the binary branch: `return out_arr` and, for unit pairs that cancel, the rescaling "
+    "`mul * out_arr` / the scaled-pure-number rescaling before the class decision, reached through _multiply_units/_divide_units -> "
+    "simplify -> _cancel_mul -> as_coeff_unit), __getitem__/__setitem__/iteration, unyt_quantity.__new__ and reshape, unyt_array.__new__ (view of an "
     "ndarray, _coerce_iterable_units for lists of quantities), Unit.__mul__ with data, the NumPy-function handlers (incl. take / einsum "
     "which pick a class by ndim, and the `* units` wrap-up of the others), and the accessors value/v/d/ndview/ndarray_view/to_ndarray/"
     "to_value/copy/to/in_units/in_base/in_cgs/in_mks are executed on operands of every enumerated shape and class whose elements and "
@@ -44,23 +56,36 @@ EXPLANATION = (
     "unit object, name and element terms; (attachment) after writing fresh symbols through a view the parent's element terms are exactly "
     "the expected ones (index map computed by applying the same route to an integer index array with bare NumPy), after writing into a "
     "copy all parent terms are the original symbols, and z3 proves the SI statements for unit-carrying writes and converting copies; "
-    "(coercion) z3 proves si(result_i) == si(input_i) for all values and scales.")
+    "(coercion) z3 proves si(result_i) == si(input_i) for all values and scales; (cancelling unit pairs) the same class / shape / "
+    "arity facts for every operand-kind combination, the dimension of the result's unit against an exponent-vector table written for "
+    "this check, and z3 proves si(result_i) == (bare NumPy on the payloads)_i * (table scale of x) op (table scale of y) for all payloads.")
 BOUNDS = {
     "quick": "shapes: all of rank 0..3 with extents 0..2 (40 shapes, incl. (), (1,), (1,1), (0,), (2,0)); operand classes A (unyt_array of "
              "every shape incl. 0-d) and Q (unyt_quantity of every shape of size 1: (), (1,), (1,1), (1,1,1)); per (shape, class) one case "
              "of each family: ufunc (11 unary ufuncs incl. modf, operators, add/subtract/remainder/fmod/divmod with 6 unyt partners in the "
              "same unit, multiply/divide/floor_divide/divmod with the same partners in another unit and bare ndarray / 2-element ndarray / "
              "list / scalar partners, both operand orders, outer, add/multiply reduce over every axis, tuple of all axes and keepdims, "
-             "accumulate, one mixed-unit (xa + kxa) sum with its SI value), ordered (maximum/minimum/fmax/comparisons/clip/sort/median/"
+             "accumulate, one mixed-unit (xa + kxa) sum with its SI value), cancel (the unit-family axis: x in km against partners in 1/m "
+             "[product = 1000] and in m [quotient = 1000] with the full partner set - same shape, 0-d unyt_array, 0-d quantity, one-element "
+             "quantity, all-ones shapes, 2-vector - under multiply / divide / * / / both orders, outer, floor_divide, //, divmod, add, "
+             "subtract, remainder, fmod, and as contractions to a lower rank or to shape (): matmul / @ with a vector from the right, "
+             "from the left and a matrix (as unyt_array and one-element unyt_quantity), vecdot, np.dot / x.dot / inner / tensordot / vdot; "
+             "7 further pairs - m*1/m [exact], cm**2*1/m [0.01 cm], (km/m)*s [operand a scaled pure number], km*xs*1/m "
+             "[symbolic-scale bystander xs], m**2/cm [100 m], erg/(N*m) [scaled pure number, rescaled before the class decision], "
+             "xa/xa - with the same-shape, one-element-quantity and 0-d unyt_array partners under multiply both orders, *, matmul, or "
+             "divide both orders, /, floor_divide, divmod, add; every pair also against the bare Unit object: x*unit, unit*x, x/unit, "
+             "unit/x; the 11 unary ufuncs, **2 and add/multiply reduce on x in km/m, km*xs, m/s), ordered (maximum/minimum/fmax/comparisons/clip/sort/median/"
              "amax/ptp/min/max on payloads that are strictly increasing by construction, plus free payloads for one element against a 0-d "
-             "partner), index (39..61 indexing forms by rank: (), ellipsis, newaxis, integers, slices, concrete boolean masks of every "
+             "partner in the same unit and, km against m, against a 0-d unyt_array and a quantity in another scale), index (39..61 indexing forms by rank: (), ellipsis, newaxis, integers, slices, concrete boolean masks of every "
              "applicable shape, a value-dependent mask, integer arrays incl. repeated indices; iteration, nested iteration, unpacking), func "
              "(about 110 NumPy functions / ndarray methods / conversions / unit products, see func_catalogue), view (32 view routes: "
              "slices, reshapes, transposes, .d/.ndview/ndarray_view(), unyt_array(x); fresh symbols written at up to 4 positions each "
              "way, one unit-carrying write), copy (25 copy routes + ndarray*unit, unit*ndarray, ndarray*quantity), ctor (6-8 constructor "
              "forms on an ndarray); coercion of lists/tuples of 1..3 quantities in distinct / equal / SI-prefixed units and of 2 arrays. "
              "Unit scales xa, xb, xc, xd, xs are symbols > 0; in the view family xa and xb are exactly equal or more than 1e-3 apart",
-    "thorough": "the same with extents 0..3 (85 shapes, payloads up to 27 symbols) and coercion lists of 1..4 quantities, 3 arrays, (1,2) arrays",
+    "thorough": "the same with extents 0..3 (85 shapes, payloads up to 27 symbols) and coercion lists of 1..4 quantities, 3 arrays, (1,2) arrays; "
+                "cancel family: on the 40 shapes of the quick bound plus (3,), (1,3), (3,1), (3,3) only, with 7 more pairs (m/km, km*xs/m, km*1/km, "
+                "(km/hr)*min [1/60], (km/hr)/(m/s) [1/3.6], (km/m)/(hr/min), km/km) and a 0-d quantity partner for every pair",
 }
 # every case is also run pinned through the shimmed library and on plain unyt with float64 data (shim conformance): the class facts
 # rest on object-dtype payloads taking the branches float payloads take
@@ -69,7 +94,13 @@ OUTSIDE = ("IEEE rounding/overflow (A1); integer/complex payloads (C17); the cla
            "property constrains only shape () and size > 1; their shape and units are still compared); results that carry no unit "
            "(comparisons: only their shape is compared; trigonometric/exp/log ufuncs and np.frexp, which has no object loop, are not run); "
            "numpy.flatiter / nditer / tolist / item (NumPy returns bare scalars by design); non-contiguous parents for reshape (NumPy itself "
-           "copies there); out= forms (C01/C04); to_value() of a one-element quantity of rank >= 1 (float() of a rank-1 array raises "
+           "copies there); out= forms and the in-place operators (C01/C04; this includes the out= half of the coefficient exit); cancelling "
+           "unit factors with SYMBOLIC scales (unyt cancels them inside a sympy expression, which cannot hold a solver term: those atoms "
+           "are table units km, m, cm, hr, min, s, erg, N; only the bystander xs and the pair xa/xa have symbolic scales there), unit pairs "
+           "from different registries (the SymbolNotFoundError fallback of _multiply_units/_divide_units); x == 0 in the cancel family "
+           "(x is also a divisor there); values of the flooring family on cancelling pairs (C04; class, shape and arity are checked); "
+           "values returned by the function handlers np.dot/inner/vdot/tensordot on cancelling pairs (C06; class and shape are checked); "
+           "to_value() of a one-element quantity of rank >= 1 (float() of a rank-1 array raises "
            "TypeError in NumPy 2); calls that fail for every operand class for reasons unrelated to the class decision and were left out "
            "of the catalogue: np.multiply.accumulate (TypeError), prod/multiply.reduce over a tuple of axes (TypeError in "
            "_apply_power_mapping), and calls that silently drop the unit (x.trace(), np.diag, np.copy without subok, np.broadcast_to: C07); "
@@ -132,7 +163,7 @@ class Chain:
         return a
 
 
-def setup(ctx, shape, cls, second_unit=False, chain=None):
+def setup(ctx, shape, cls, second_unit=False, chain=None, nonzero=False):
     """registry with harness units of symbolic scale, the operand under test x and its bookkeeping"""
     unyt = ctx.mods["unyt"]
     D = unyt.dimensions
@@ -151,7 +182,7 @@ def setup(ctx, shape, cls, second_unit=False, chain=None):
     E.us = unyt.Unit("xs", registry=reg)
     E.shape, E.cls = shape, cls
     E.chain = chain
-    E.p = chain.array(shape) if chain else reals(ctx, "x", shape)
+    E.p = chain.array(shape) if chain else reals(ctx, "x", shape, nonzero=nonzero)
     E.orig = list(elements(E.p))
     E.x = make(E, E.p, cls, E.ua, PNAME)
     E.me = cls + sid(shape)
@@ -166,12 +197,12 @@ def make(E, data, cls, unit, name=None):
     return E.UQ(data, unit, name=name)
 
 
-def reals(ctx, name, shape, pos=False):
+def reals(ctx, name, shape, pos=False, nonzero=False):
     """payload symbols; an EMPTY payload has no element to be symbolic and is a float64 array in every mode (NumPy's object-dtype
     reductions return the Python int 0 for an empty operand where the float loops return float64(0.0))"""
     if size_of(shape) == 0:
         return np.empty(shape, dtype=float)
-    return ctx.reals(name, shape, pos=pos)
+    return ctx.reals(name, shape, pos=pos, nonzero=nonzero)
 
 
 def fresh(E, name, shape, pos=False):
@@ -199,10 +230,14 @@ def kind_of(E, a):
     return "scalar"
 
 
-def record(E, key, ok, detail):
-    """key = '<site>/<rule>'; ok: python bool (class/shape fact of this path) or a symbolic condition (value-level, for the solver)"""
+def record(E, key, ok, detail, value=False):
+    """key = '<site>/<rule>'; ok: python bool (class/shape fact of this path) or a symbolic condition (value-level, for the solver).
+    value=True: a value-level statement - it is one obligation under the label `key` in every mode (a python bool in replay mode),
+    so that a model found by the solver is replayed under the same label"""
     fails, conds = E.acc.setdefault(key, ([], []))
-    if isinstance(ok, (bool, np.bool_)):
+    if value:
+        conds.append(ok)
+    elif isinstance(ok, (bool, np.bool_)):
         if not ok:
             fails.append(detail)
     else:
@@ -475,6 +510,17 @@ def make_ordered_case(shape, cls):
             for n in ("maximum", "minimum", "less", "equal"):
                 run_op(E, n + " (free payloads)", f"{n}({me},Q0d)", getattr(np, n), (xf, yf), (px, pq0), unitful=n in ("maximum", "minimum"))
             flush(E)
+            # commensurable operands in different scales (table units km / m: the conversion branch in front of the same wrap-up),
+            # partner a 0-d unyt_array and a quantity, both orders
+            xk = make(E, ctx.reals("xk", shape), cls, E.unyt.Unit("km", registry=E.reg))
+            ymv = ctx.reals("ym", ())  # one value for both partner classes: the orderings are walked once
+            for ptag, pcls in (("A0d", "A"), ("Q0d", "Q")):
+                ym = make(E, ymv.copy(), pcls, E.unyt.Unit("m", registry=E.reg))
+                for n in ("maximum", "minimum", "fmin", "less"):
+                    unitful = n != "less"
+                    run_op(E, f"km~m:{n} (free payloads)", f"{n}({me} km,{ptag} m)", getattr(np, n), (xk, ym), (px, pq0), unitful=unitful, observe=unitful)
+                    run_op(E, f"km~m:{n} (free payloads)", f"{n}({ptag} m,{me} km)", getattr(np, n), (ym, xk), (pq0, px), unitful=unitful, observe=unitful)
+            flush(E)
     return Case(f"C16/ordered/{cls}{sid(shape)}", h, bounds="symbolic: payloads (strictly increasing by construction; free for the last block), unit scales",
                 weight=2 + size_of(shape), budget_s=900, max_paths=4000)
 
@@ -491,6 +537,316 @@ ORDERED_FUNCS = [
     ("x.max(keepdims)", lambda a: a.max(keepdims=True)),
     ("builtin min", lambda a: min(a.ravel())),
 ]
+
+
+# ------------------------------------------------------------------------------------------------ family 1b: unit pairs that cancel
+#
+# The wrap-up of a binary ufunc has a SECOND exit: when the unit rule of the product / quotient returns a numeric coefficient
+# (`mul != 1`: km * 1/m -> 1000, m**2 / cm -> 100 m) the already classified result is rescaled on the way out, and when the
+# simplified unit is a scaled pure number (erg / (N*m)) the raw result is rescaled before it is classified. Both exits are only
+# taken for unit pairs that share a dimension factor in different scales, so they are an axis of their own: the UNIT FAMILY of
+# the two operands. Same-dimension factors are cancelled by unyt inside a sympy expression, which cannot hold a solver term, so
+# the cancelling atoms are table units with concrete scales (the harness has its own table below); payloads stay symbolic and a
+# symbolic-scale bystander (xs, time) rides along in two pairs.
+
+# exact definitions, written for this check: SI scale, exponents of (mass, length, time)
+CANCEL_ATOMS = {"m": (1.0, (0, 1, 0)), "km": (1000.0, (0, 1, 0)), "cm": (0.01, (0, 1, 0)),
+                "s": (1.0, (0, 0, 1)), "min": (60.0, (0, 0, 1)), "hr": (3600.0, (0, 0, 1)),
+                "N": (1.0, (1, 1, -2)), "erg": (1e-7, (1, 2, -2)),
+                "xa": ("sa", (0, 1, 0)), "xs": ("ss", (0, 0, 1))}
+
+# (text handed to unyt, [(atom, exponent)])
+CU = {
+    "km": [("km", 1)], "m": [("m", 1)], "cm": [("cm", 1)], "1/m": [("m", -1)], "1/km": [("km", -1)], "cm**2": [("cm", 2)], "m**2": [("m", 2)],
+    "km/hr": [("km", 1), ("hr", -1)], "m/s": [("m", 1), ("s", -1)], "min": [("min", 1)], "s": [("s", 1)], "km/m": [("km", 1), ("m", -1)],
+    "km*xs": [("km", 1), ("xs", 1)], "erg": [("erg", 1)], "N*m": [("N", 1), ("m", 1)], "xa": [("xa", 1)], "hr/min": [("hr", 1), ("min", -1)],
+}
+
+# (unit of x, unit of the partner, what the product / quotient does). "mul": x*y cancels; "div": x/y (and y/x) cancels
+CANCEL_PAIRS = [
+    ("mul", "km", "1/m", "coefficient 1000, pure number", "quick"),
+    ("div", "km", "m", "coefficient 1000, pure number", "quick"),
+    ("mul", "m", "1/m", "cancels exactly (coefficient 1)", "quick"),
+    ("mul", "cm**2", "1/m", "coefficient 0.01 and a unit left (cm)", "quick"),
+    ("mul", "km/m", "s", "operand in a scaled pure number: coefficient 1000 and the partner's unit left", "quick"),
+    ("mul", "km*xs", "1/m", "coefficient 1000 next to a symbolic-scale bystander", "quick"),
+    ("div", "m", "km", "coefficient 0.001, pure number", "thorough"),   # quick: km~m in the other operand order
+    ("div", "m**2", "cm", "coefficient 100 and a unit left (m)", "quick"),
+    ("div", "erg", "N*m", "no factor cancels pairwise: scaled pure number, rescaled BEFORE the class decision", "quick"),
+    ("div", "km*xs", "m", "coefficient 1000 next to a symbolic-scale bystander", "thorough"),
+    ("div", "xa", "xa", "the same symbolic-scale unit: sympy cancels the shared symbol itself", "quick"),
+    ("mul", "km", "1/km", "cancels exactly (coefficient 1)", "thorough"),
+    ("mul", "km/hr", "min", "inexact coefficient 1/60 and a unit left (km)", "thorough"),
+    ("div", "km/hr", "m/s", "two cancelling pairs, inexact coefficient 1/3.6", "thorough"),
+    ("div", "km/m", "hr/min", "both operands scaled pure numbers", "thorough"),
+    ("div", "km", "km", "the same table unit", "thorough"),
+]
+
+
+def cancel_shapes(tier):
+    """the unit-family axis is crossed with the shapes of the quick bound in both tiers (the class decision looks at shape (), size 1,
+    size > 1 only; the thorough tier spends its budget on more unit pairs and partners) plus a few shapes with an extent of 3"""
+    return set(shapes_of("quick")) | ({(3,), (1, 3), (3, 1), (3, 3)} if tier != "quick" else set())
+
+
+def cancel_pairs(tier):
+    return [p[:4] for p in CANCEL_PAIRS if tier != "quick" or p[4] == "quick"]
+
+
+COMPOUND_OPERAND_UNITS = ["km/m", "km*xs", "m/s"]   # unary ufuncs / reductions on an operand in a scaled pure number / compound unit
+N_MAIN_PAIRS = 2   # these get the full partner set (as the ufunc family); the others the same-shape and 0-d partners
+
+
+def cu_oracle(E, text):
+    """independent scale and dimension of a catalogue unit: (numeric factor, {symbolic scale name: exponent}, exponent vector)"""
+    num, syms, vec = 1.0, {}, [0, 0, 0]
+    for atom, e in CU[text]:
+        a, v = CANCEL_ATOMS[atom]
+        if isinstance(a, str):
+            syms[a] = syms.get(a, 0) + e
+        else:
+            num = num * a ** e
+        vec = [p + e * q for p, q in zip(vec, v)]
+    return num, syms, tuple(vec)
+
+
+def scaled(E, t, num, syms, den_num=1.0, den_syms=None):
+    """t * num * prod(symbolic scales) / (den_num * prod(symbolic scales of the divisor unit)), written the way the statement needs
+    no reasoning about x/y * y or 1/(a*b) = 1/a * 1/b: the payload quotient is the same term on both sides, and a divisor unit with
+    a symbolic scale enters as the reciprocal of its whole scale"""
+    t = t * num
+    for name, e in sorted(syms.items()):
+        for _ in range(e):
+            t = t * getattr(E, name)
+    if den_syms:
+        d = den_num
+        for name, e in sorted(den_syms.items()):
+            for _ in range(e):
+                d = d * getattr(E, name)
+        t = t * (1.0 / d)
+    return t
+
+
+def ratio(a, b, sign):
+    """coefficient of a*b (sign=+1) or a/b (sign=-1) for `scaled`; a, b: cu_oracle results with non-negative symbolic exponents"""
+    if sign > 0:
+        syms = dict(a[1])
+        for k, e in b[1].items():
+            syms[k] = syms.get(k, 0) + e
+        return (a[0] * b[0], syms)
+    if not b[1]:
+        return (a[0] / b[0], dict(a[1]))
+    return (a[0], dict(a[1]), b[0], dict(b[1]))
+
+
+def dims_of(E, vec):
+    D = E.unyt.dimensions
+    return D.mass ** vec[0] * D.length ** vec[1] * D.time ** vec[2]
+
+
+def amap(f, a):
+    """element-wise map over an ndarray payload (object or float), same shape and dtype"""
+    a = np.asarray(a)
+    out = np.empty(a.shape, dtype=a.dtype)
+    for idx in np.ndindex(*a.shape):
+        out[idx] = f(a[idx])
+    return out
+
+
+def absarr(a):
+    return amap(vabs, a)
+
+
+def si_value(E, site, what, r, want, extra=None, dims=None):
+    """value-level statement for the solver: the result denotes, in SI, what bare NumPy computes from the operands' SI magnitudes
+    (scales from the harness table) - a coefficient applied twice, not at all, or to the wrong output shows up here for ALL payloads.
+    want / extra: callables (evaluated only when there is a unyt result) returning arrays / scalars / flat lists"""
+    if not isinstance(r, E.UA):
+        return
+    if dims is not None:
+        record(E, f"{site}/dimension of the result's unit", bool(r.units.dimensions == dims_of(E, dims)), f"{what}: {r.units.dimensions}")
+    got = [v * r.units.base_value for v in payload(r)]
+    want = list(elements(want()))
+    ex = [e * 1e-6 for e in elements(extra())] if extra is not None else [0] * len(want)
+    if len(got) != len(want):
+        record(E, f"{site}/SI value", False, f"{what}: {len(got)} elements for {len(want)}", value=True)
+        return
+    record(E, f"{site}/SI value", And(*[close(g, w, extra=e) for g, w, e in zip(got, want, ex)], True), what, value=True)
+
+
+def cancel_partners(E, unit, k, full, tier="quick"):
+    """partners in `unit`: (tag, unyt object, float placeholder, bare payload). Always: the same shape as a unyt_array (and as a
+    unyt_quantity where it has one element) and a 0-d unyt_array; full: also a 0-d quantity, all-ones shapes, a 2-vector"""
+    shape, nd = E.shape, len(E.shape)
+    out = []
+
+    def arr(tag, shp, cls):
+        key = cls + sid(shp)
+        if any(t == key for t, _, _, _ in out):
+            return
+        y = fresh(E, f"y{k}{tag}", shp, pos=True)
+        out.append((key, make(E, y, cls, unit), placeholder(shp, 7.0), y))
+
+    arr("s", shape, "A")
+    arr("z", (), "A")
+    if size_of(shape) == 1:
+        arr("p", shape, "Q")
+    if full or tier != "quick":
+        arr("q", (), "Q")
+    if full:
+        ones = (1,) * max(nd, 1)
+        if ones != shape:
+            arr("o", ones, "A")
+            arr("r", ones, "Q")
+        if nd == 0 or shape[-1] in (1, 2):
+            arr("t", (2,), "A")
+    return out
+
+
+def contraction_partners(E, unit, k, full):
+    """partners for matmul-like contractions of x: a vector over x's last axis (x @ v), one over the axis matmul contracts from the
+    left (v @ x), a matrix (x @ M); as unyt_array and, where they have one element, as unyt_quantity"""
+    shape, nd = E.shape, len(E.shape)
+    if nd == 0:
+        return []
+    out = []
+    forms = [("v", (shape[-1],), "right")]
+    if full:
+        forms += [("w", (shape[-2] if nd >= 2 else shape[0],), "left"), ("M", (shape[-1], 2), "right")]
+    for tag, shp, side in forms:
+        for cls in classes_for(shp):
+            y = fresh(E, f"y{k}{tag}{cls}", shp, pos=True)
+            out.append((f"{cls}{sid(shp)}", make(E, y, cls, unit), placeholder(shp, 7.0), y, side))
+    return out
+
+
+def make_cancel_case(shape, cls, tier):
+    def h(ctx):
+        E = setup(ctx, shape, cls, nonzero=True)  # x is also a divisor: x == 0 is outside (A1), no path is spent on it
+        ctx.no_batch = True  # rational obligations (x/y scaled by a coefficient): one query each is decided at once, their conjunction is not
+        px, me = placeholder(shape), E.me
+        P = E.p
+        units = {}
+
+        def unit(text):
+            if text not in units:
+                units[text] = E.unyt.Unit(text, registry=E.reg)
+            return units[text]
+
+        mul_op = lambda u, v: u * v          # noqa: E731
+        div_op = lambda u, v: u / v          # noqa: E731
+        ident = lambda a: a                  # noqa: E731
+        # the operand's own unit is compound / a scaled pure number: the one-operand wrap-up
+        for tx in COMPOUND_OPERAND_UNITS:
+            x = make(E, P, cls, unit(tx), PNAME)
+            for n in UNARY:
+                run_op(E, f"{tx}:{n}", f"{n}({me}) [{tx}]", ufunc_of(ctx, n), (x,), (px,), ref=getattr(np, n))
+            run_op(E, f"{tx}:x··2", f"{me}**2 [{tx}]", lambda a: a ** 2, (x,), (px,))
+            for n in REDUCE:
+                for ax_ in [None] + ([0] if len(shape) else []):
+                    run_op(E, f"{tx}:{n}.reduce", f"{n}.reduce({me},axis={ax_}) [{tx}]", lambda a: getattr(np, n).reduce(a, axis=ax_), (x,), (px,))
+            flush(E)
+        for k, (kind, tx, ty, _) in enumerate(cancel_pairs(tier)):
+            full = k < N_MAIN_PAIRS
+            pt = f"{tx}~{ty}"
+            ox, oy = cu_oracle(E, tx), cu_oracle(E, ty)
+            dx, dy = ox[2], oy[2]
+            x = make(E, P, cls, unit(tx), PNAME)
+            dmul = tuple(a + b for a, b in zip(dx, dy))
+            ddiv = tuple(a - b for a, b in zip(dx, dy))
+            drdiv = tuple(b - a for a, b in zip(dx, dy))
+            cmul, cdiv, crdiv = ratio(ox, oy, +1), ratio(ox, oy, -1), ratio(oy, ox, -1)
+
+            def si(raw, c):
+                """SI magnitudes of what bare NumPy computes from the payloads, by the harness' own table"""
+                return lambda: [scaled(E, t, *c) for t in elements(raw())]
+
+            def op(name, f, a, b, pa, pb, ref=None, want=None, extra=None, dims=None, observe=True):
+                site = f"{pt}:{name}"
+                r = run_op(E, site, f"{name}({a[0]},{b[0]}) [{pt}]", f, (a[1], b[1]), (pa, pb), ref=ref, observe=observe)
+                if r is not None and want is not None:
+                    si_value(E, site, f"{a[0]},{b[0]}", r, want, extra, dims)
+                return r
+
+            for tag, y, py, Y in cancel_partners(E, unit(ty), k, full, tier):
+                ax, ay = (me, x), (tag, y)
+                if kind == "mul":
+                    w = si(lambda: np.multiply(P, Y), cmul)
+                    op("multiply", np.multiply, ax, ay, px, py, want=w, dims=dmul)
+                    op("multiply", np.multiply, ay, ax, py, px, want=w, dims=dmul)
+                    op("x*y", mul_op, ax, ay, px, py, want=w, dims=dmul)
+                    if full:
+                        op("x*y", mul_op, ay, ax, py, px, want=w, dims=dmul)
+                        op("multiply.outer", np.multiply.outer, ax, ay, px, py, want=si(lambda: np.multiply.outer(P, Y), cmul), dims=dmul)
+                        # the quotient by the reciprocal partner does not cancel (km / (1/m) = km*m): the neighbouring exit
+                        op("divide", np.divide, ax, ay, px, py)
+                else:
+                    w = si(lambda: np.divide(P, Y), cdiv)
+                    wr = si(lambda: np.divide(Y, P), crdiv)  # the partner divided by x: the reciprocal coefficient
+                    op("divide", np.divide, ax, ay, px, py, want=w, dims=ddiv)
+                    op("divide", np.divide, ay, ax, py, px, want=wr, dims=drdiv)
+                    op("x/y", div_op, ax, ay, px, py, want=w, dims=ddiv)
+                    # flooring family: discontinuous, so class, shape and arity only (values: C04)
+                    # (not observed: at an exact multiple the float quotient may land on the other side of the step)
+                    # (not next to the symbolic-scale bystander: unyt asks there whether 1000*xs equals 1, one more path for nothing)
+                    if not ox[1] and not oy[1]:
+                        op("floor_divide", np.floor_divide, ax, ay, px, py, observe=False)
+                        op(site_of("divmod"), ufunc_of(ctx, "divmod"), ax, ay, px, py, ref=np.divmod, observe=False)
+                    if full:
+                        op("x/y", div_op, ay, ax, py, px, want=wr, dims=drdiv)
+                        op("divide.outer", np.divide.outer, ax, ay, px, py, want=si(lambda: np.divide.outer(P, Y), cdiv), dims=ddiv)
+                        op("floor_divide", np.floor_divide, ay, ax, py, px, observe=False)
+                        op(site_of("divmod"), ufunc_of(ctx, "divmod"), ay, ax, py, px, ref=np.divmod, observe=False)
+                        op("x//y", lambda u, v: u // v, ax, ay, px, py, observe=False)
+                        # the product does not cancel (km * m): the neighbouring exit
+                        op("multiply", np.multiply, ax, ay, px, py)
+                    # the additive family on commensurable operands in different scales (conversion branch, same wrap-up)
+                    if dx == dy and not ox[1] and not oy[1]:
+                        X, Ysi = amap(lambda t: t * ox[0], P), amap(lambda t: t * oy[0], Y)
+                        bandxy = lambda: absarr(X) + absarr(Ysi)   # noqa: E731
+                        op("add", np.add, ax, ay, px, py, want=lambda: np.add(X, Ysi), extra=bandxy, dims=dx)
+                        if full:
+                            op("subtract", np.subtract, ay, ax, py, px, want=lambda: np.subtract(Ysi, X), extra=bandxy, dims=dx)
+                            for n in ("remainder", "fmod"):
+                                op(n, getattr(np, n), ax, ay, px, py, observe=False)
+                                op(n, getattr(np, n), ay, ax, py, px, observe=False)
+            # the partner is a bare Unit object (Unit.__mul__ with data / quantity(1, unit) / x: their own class decisions)
+            uy = unit(ty)
+            if kind == "mul":
+                for name, f in (("x·unit", lambda a: a * uy), ("unit·x", lambda a: uy * a)):
+                    r = run_op(E, f"{pt}:{name}", f"{name} on {me} [{pt}]", f, (x,), (px,), ref=ident)
+                    si_value(E, f"{pt}:{name}", me, r, si(lambda: P, cmul), dims=dmul)
+            else:
+                r = run_op(E, f"{pt}:x/unit", f"x/unit on {me} [{pt}]", lambda a: a / uy, (x,), (px,), ref=ident)
+                si_value(E, f"{pt}:x/unit", me, r, si(lambda: P, cdiv), dims=ddiv)
+                r = run_op(E, f"{pt}:unit/x", f"unit/x on {me} [{pt}]", lambda a: uy / a, (x,), (px,), ref=ident)
+                si_value(E, f"{pt}:unit/x", me, r, si(lambda: amap(lambda t: 1.0 / t, P), crdiv), dims=drdiv)
+            # contractions: a shape-() or lower-rank result out of array operands
+            if kind == "mul":
+                for tag, y, py, Y, side in contraction_partners(E, unit(ty), k, full):
+                    ax, ay = (me, x), (tag, y)
+                    a, b, pa, pb, A, B = (ax, ay, px, py, P, Y) if side == "right" else (ay, ax, py, px, Y, P)
+                    w = si(lambda: np.matmul(A, B), cmul)
+                    wb = si(lambda: np.matmul(absarr(A), absarr(B)), cmul)
+                    op("matmul", np.matmul, a, b, pa, pb, want=w, extra=wb, dims=dmul)
+                    if full:
+                        op("x@y", lambda u, v: u @ v, a, b, pa, pb, want=w, extra=wb, dims=dmul)
+                        # function handlers and the ndarray method: `* units` wrap-up (values: C06)
+                        op("np.dot", np.dot, a, b, pa, pb)
+                        op("x.dot(y)", lambda u, v: u.dot(v), a, b, pa, pb)
+                        op("np.inner", np.inner, a, b, pa, pb)
+                        op("np.tensordot(axes=1)", lambda u, v: np.tensordot(u, v, axes=1), a, b, pa, pb)
+                # same-shape partner: contraction of the last axis / of everything
+                if full:
+                    for tag, y, py, Y in cancel_partners(E, unit(ty), f"{k}c", False)[:1]:
+                        ax, ay = (me, x), (tag, y)
+                        op("vecdot", np.vecdot, ax, ay, px, py, want=si(lambda: np.vecdot(P, Y), cmul),
+                           extra=si(lambda: np.vecdot(absarr(P), absarr(Y)), cmul), dims=dmul)
+                        op("np.vdot", np.vdot, ax, ay, px, py)
+                        op("np.tensordot(all axes)", lambda u, v: np.tensordot(u, v, axes=np.ndim(u)), ax, ay, px, py)
+            flush(E)
+    return Case(f"C16/cancel/{cls}{sid(shape)}", h, bounds="symbolic: payloads, bystander unit scales (cancelling atoms: table units)",
+                weight=4 + 2 * size_of(shape), budget_s=900, max_paths=4000)
 
 
 # ------------------------------------------------------------------------------------------------ family 2: indexing / iteration
@@ -1066,6 +1422,8 @@ def cases(tier, mods):
     for shape in shapes_of(tier):
         for cls in classes_for(shape):
             out.append(make_ufunc_case(shape, cls))
+            if shape in cancel_shapes(tier):
+                out.append(make_cancel_case(shape, cls, tier))
             out.append(make_ordered_case(shape, cls))
             out.append(make_index_case(shape, cls))
             out.append(make_func_case(shape, cls))
